@@ -86,6 +86,14 @@ def run_case(case, rng):
 
     hvals = set(h.values())
     hfun = (lambda s: h[s]) if (len(hvals) > 1 or rng.random() < 0.5) else next(iter(hvals))   # a constant may be passed as a number
+    htype = rng.choice(["float", "float", "np.float64", "0-d array", "int-if-integral"])
+    if callable(hfun) and htype != "float":
+        conv = {"np.float64": np.float64, "0-d array": np.asarray,
+                "int-if-integral": (lambda v: int(v) if float(v).is_integer() else v)}[htype]
+        hobj = {s_: conv(v_) for s_, v_ in h.items()}          # ONE stored object per state, handed out every time
+        hsnap = {s_: float(v_) for s_, v_ in hobj.items()}
+        hfun = lambda s: hobj[s]
+        case.params["heuristic_value_type"] = htype
     # boundary budgets: an outer-loop cap the search cannot finish within (an honest run then says converged=False).
     # (Too few inner dynamic-programming sweeps make LAO* stop on its own `assert converged`: it refuses rather than
     # returns something, so that parameter is left at its default.)
@@ -112,6 +120,10 @@ def run_case(case, rng):
             case.count("planner_reused")
     res = case.call("LAOStar.plan_on", planner.plan_on, mdp, facts=dict(gamma=gamma, heuristic=hk))
     case.count("laostar_calls")
+    if "heuristic_value_type" in case.params:
+        now_h = {s_: float(v_) for s_, v_ in hobj.items()}
+        case.check(now_h == hsnap, "planner-changed-the-heuristic's-own-value-objects",
+                   lambda: f"{[(s_, hsnap[s_], now_h[s_]) for s_ in hsnap if hsnap[s_] != now_h[s_]][:3]!r}", heuristic_value_type=htype)
     if res is case.FAIL:
         return
     if rng.random() < 0.25:
